@@ -159,6 +159,9 @@ func (c *Ctx) eval(env *Env, e ast.Expr) Val {
 			return tFalse
 		case "nil":
 			return IfaceV{Ref: intLit(0)}
+		case "nilints":
+			// the nil []int
+			return SliceV{intLit(0), intLit(0), intLit(0), SInt, types.Typ[types.Int]}
 		}
 		if v, ok := env.lookup(x.Name); ok {
 			return v
@@ -322,6 +325,11 @@ func (c *Ctx) evalSelector(env *Env, x *ast.SelectorExpr) Val {
 			return app(SInt, "nd_rank", v.Ref)
 		case "root":
 			return c.ndRoot(v)
+		case "shape":
+			// the extents of x as a logical sequence (general-rank interface model)
+			c.declareFun("nd_shape", []Sort{SInt}, arrSort(SInt))
+			c.declareFun("nd_rank", []Sort{SInt}, SInt)
+			return SeqV{app(arrSort(SInt), "nd_shape", v.Ref), intLit(0), app(SInt, "nd_rank", v.Ref)}
 		}
 		if strings.HasPrefix(x.Sel.Name, "g_") {
 			// ghost attribute of an object behind an interface: an uninterpreted
@@ -505,6 +513,26 @@ func (c *Ctx) evalCall(env *Env, x *ast.CallExpr) Val {
 			panic(vcErr("as: %s is not a struct", tn.Name))
 		}
 		return StructPtr{ref, typeKey(obj.Type()), st, obj.Type()}
+	case "fresh":
+		// fresh(x): the object x was allocated during the call (its id is at or
+		// above the allocation counter of the pre-state)
+		if env.old == nil {
+			panic(vcErr("fresh() needs a pre-state"))
+		}
+		var id T
+		switch v := c.eval(env, args[0]).(type) {
+		case SliceV:
+			id = v.ID
+		case StructPtr:
+			id = v.Ref
+		case IfaceV:
+			id = v.Ref
+		case ArrPtr:
+			id = v.ID
+		default:
+			panic(vcErr("fresh: not an object"))
+		}
+		return and(app(SBool, ">=", id, env.old.alloc), app(SBool, "<", id, env.st.alloc))
 	case "injective":
 		x, ok := c.eval(env, args[0]).(IfaceV)
 		if !ok {
@@ -895,15 +923,11 @@ func (c *Ctx) ghostCell(st *State, name string) T {
 	if v, ok := st.cells[key]; ok {
 		return v.(T)
 	}
-	if c.ghost0 == nil {
-		c.ghost0 = map[string]T{}
-	}
-	v, ok := c.ghost0[key]
-	if !ok {
-		v = c.fresh("ghost_"+name, SInt)
-		c.ghost0[key] = v
-		c.cellTypes[key] = types.Typ[types.Int]
-	}
+	// the entry value: a constant with a fixed name, declared through the
+	// registry that discovery passes roll back together with the emitted text
+	c.declareFun("ghost0_"+name, nil, SInt)
+	v := T{"ghost0_" + name, SInt}
+	c.cellTypes[key] = types.Typ[types.Int]
 	st.cells[key] = v
 	return v
 }
